@@ -140,8 +140,10 @@ static void run_case(Rng &r)
     g_hist = fmt("AutomationMgr(%d,%d):", nslots, per);
     g_failed = false;
     int ops = (int)r.range(1, 40);
-    // a full NRPN parameter number first (design: the NRPN state is uninitialised before)
-    for(int cc : {99, 98}) { int v = (int)r.range(0, 127); mgr->handleMidi(0, cc, v); g_hist += fmt(" midi(0,%d,%d)", cc, v); if(cc == 99) { m.parhi = v; } else m.parlo = v; m.valhi = m.vallo = -1; }
+    // usually a full NRPN parameter number first; otherwise data-entry messages must be ignored until one was selected
+    bool preselect = r.chance(0.7);
+    if(!preselect) count("nrpn.history_without_initial_select");
+    if(preselect) for(int cc : {99, 98}) { int v = (int)r.range(0, 127); mgr->handleMidi(0, cc, v); g_hist += fmt(" midi(0,%d,%d)", cc, v); if(cc == 99) { m.parhi = v; } else m.parlo = v; m.valhi = m.vallo = -1; }
     g_out.clear();
     for(int o = 0; o < ops && !g_failed; ++o) {
         size_t from = g_out.size();
@@ -223,14 +225,29 @@ static void run_case(Rng &r)
                 count("midi.unbound_ignored");
                 if(g_out.size() != from) bad("extra_message", fmt("unassigned controller %d produced %zu messages (%s)", id, g_out.size() - from, g_out[from].addr.c_str()), "none");
             }
+        } else if(r.chance(0.12)) {
+            // (re)select half of the NRPN parameter number: clears the value halves, emits nothing
+            int cc = r.chance(0.5) ? 99 : 98, v = (int)r.range(0, 127);
+            g_hist += fmt(" midi(0,%d,%d)", cc, v);
+            mgr->handleMidi(0, cc, v);
+            if(cc == 99) m.parhi = v; else m.parlo = v;
+            m.valhi = m.vallo = -1;
+            count("nrpn.select_mid_history");
+            if(g_out.size() != from) bad("extra_message", "NRPN parameter select produced a parameter message", "none", {"nrpn_incomplete"});
         } else {
-            // a complete NRPN value (data entry hi, lo) for the parameter number selected at the start
+            // an NRPN value (data entry hi, lo) for the parameter number selected so far
             int vh_ = (int)r.range(0, 127), vl = (int)r.range(0, 127);
             g_hist += fmt(" nrpn_value(%d,%d)", vh_, vl);
             int id = (m.parhi << 7) + m.parlo;
             for(int step = 0; step < 2 && !g_failed; ++step) {
                 size_t f2 = g_out.size();
                 mgr->handleMidi(0, step ? 38 : 6, step ? vl : vh_);
+                if(m.parhi < 0 || m.parlo < 0) {
+                    // no parameter number selected: data entry is not an NRPN, nothing to map or learn
+                    count("nrpn.data_entry_without_select");
+                    if(g_out.size() != f2) bad("extra_message", "data entry without a selected NRPN parameter produced a parameter message", "none", {"nrpn_incomplete"});
+                    continue;
+                }
                 if(step == 0) {
                     m.valhi = vh_;
                     bool complete = m.vallo >= 0;
